@@ -317,7 +317,7 @@ package rockredis
 //@   ensures h.Ver == 1 ==> result0 == 13 && len(result1) >= 13 && result1[0] == 1 && be32(result1, 1) == h.ExpireAt && be64(result1, 5) == uint64(h.ValueVersion)
 //@   ensures h.Ver == 1 && len(old) >= 13 ==> sameSlice(result1, old)
 //@   ensures h.Ver == 1 && len(old) < 13 ==> fresh(result1) && len(result1) == 13
-//@   modifies old[0:13]
+//@   modifies old[0:min(13, len(old))]
 
 //@ func (h *headerMetaValue) decode(b []byte) (int, error)
 //@   requires h != nil
@@ -326,13 +326,17 @@ package rockredis
 //@   modifies h.Ver, h.ExpireAt, h.ValueVersion, h.UserData
 
 //@ func (h *headerMetaValue) encodeWithDataTo(old []byte) []byte
-//@   requires h != nil && h.Ver == 1 && len(old) >= 13 + len(h.UserData) && disjoint(old, h.UserData)
-//@   ensures sameSlice(result, old) && result[0] == 1 && be32(result, 1) == h.ExpireAt && be64(result, 5) == uint64(h.ValueVersion) && eqAt(result, 13, h.UserData)
-//@   modifies old[0:13+len(h.UserData)]
+//@   requires h != nil && (h.Ver == 0 || h.Ver == 1) && len(old) >= ite(h.Ver == 1, 13, 0) + len(h.UserData) && disjoint(old, h.UserData)
+//@   ensures sameSlice(result, old)
+//@   ensures h.Ver == 1 ==> result[0] == 1 && be32(result, 1) == h.ExpireAt && be64(result, 5) == uint64(h.ValueVersion) && eqAt(result, 13, h.UserData)
+//@   ensures h.Ver == 0 ==> eqAt(result, 0, h.UserData)
+//@   modifies old[0:len(old)]
 
 //@ func (h *headerMetaValue) encodeWithData() []byte
-//@   requires h != nil && h.Ver == 1
-//@   ensures len(result) == 13 + len(h.UserData) && result[0] == 1 && be32(result, 1) == h.ExpireAt && be64(result, 5) == uint64(h.ValueVersion) && eqAt(result, 13, h.UserData)
+//@   requires h != nil && (h.Ver == 0 || h.Ver == 1)
+//@   ensures len(result) == ite(h.Ver == 1, 13, 0) + len(h.UserData)
+//@   ensures h.Ver == 1 ==> result[0] == 1 && be32(result, 1) == h.ExpireAt && be64(result, 5) == uint64(h.ValueVersion) && eqAt(result, 13, h.UserData)
+//@   ensures h.Ver == 0 ==> eqAt(result, 0, h.UserData)
 //@   ensures fresh(result)
 
 //@ lemma lemmaHeaderRoundTrip(h *headerMetaValue, h2 *headerMetaValue) (int, error)
@@ -463,6 +467,7 @@ package rockredis
 //@   modifies ghost(ldeletes, db), ghost(wbputs, wb), ghost(wbdels, wb)
 // ghost(commits, e) counts engine writes; ghost(cputs/cdels, e) are the batch counters handed to the last write
 //@ interface (github.com/youzan/ZanRedisDB/engine.KVEngine).Write func(e engine.KVEngine, wb engine.WriteBatch) error
+//@   ensures result != errTooMuchBatchSize
 //@   ensures ghost(commits, e) == old(ghost(commits, e)) + 1 && ghost(cputs, e) == ghost(wbputs, wb) && ghost(cdels, e) == ghost(wbdels, wb)
 //@   modifies ghost(commits, e), ghost(cputs, e), ghost(cdels, e)
 //@ func (db *RockDB) IncrTableKeyCount(table []byte, delta int64, wb engine.WriteBatch)
@@ -473,11 +478,13 @@ package rockredis
 //@   modifies ghost(expdels, e)
 //@ func checkKeySize(key []byte) error
 //@   ensures result == nil <==> (1 <= len(key) && len(key) <= MaxKeySize)
+//@   ensures result != errTooMuchBatchSize
 //@ func checkValueSize(value []byte) error
 //@   ensures result == nil <==> len(value) <= MaxValueSize
 //@   ensures result != nil ==> result == errValueSize
 //@ func checkCollKFSize(key []byte, field []byte) error
 //@   ensures result == nil <==> (1 <= len(key) && len(key) <= MaxKeySize && len(field) <= MaxSubKeyLen)
+//@   ensures result != errTooMuchBatchSize
 
 // LTRIM key start stop (Redis): negative indexes count from the tail; start is clamped to 0, stop to len-1;
 // an empty or inverted range removes the key, otherwise exactly the elements [s, e] remain
@@ -557,3 +564,89 @@ package rockredis
 //@   ensures zlS(total, start) > zlE(total, stop) ==> offset == -1
 //@   ensures offset == -1 ==> zlS(total, start) > zlE(total, stop) || zlS(total, start) >= total
 //@   ensures offset != -1 ==> offset == zlS(total, start) && count == zlE(total, stop) - zlS(total, start) + 1 && count >= 1
+
+// ---- collection element accounting (hash / set) ----
+// ghost(misses, db) / ghost(hits, db): point reads of the command that found nothing / something in the store
+//@ func (r *RockDB) GetBytesNoLock(key []byte) ([]byte, error)
+//@   trusted engine point read
+//@   ensures ghost(misses, r) == old(ghost(misses, r)) + ite(result1 == nil && result0 == nil, 1, 0)
+//@   ensures ghost(hits, r) == old(ghost(hits, r)) + ite(result1 == nil && result0 != nil, 1, 0)
+//@   ensures result1 != nil ==> result0 == nil
+//@   ensures result1 != errTooMuchBatchSize
+//@   ensures result0 != nil ==> fresh(result0)
+//@   modifies ghost(misses, r), ghost(hits, r)
+//@ func (r *RockDB) ExistNoLock(key []byte) (bool, error)
+//@   trusted engine existence test
+//@   ensures ghost(misses, r) == old(ghost(misses, r)) + ite(result1 == nil && !result0, 1, 0)
+//@   ensures ghost(hits, r) == old(ghost(hits, r)) + ite(result1 == nil && result0, 1, 0)
+//@   ensures result1 != nil ==> !result0
+//@   ensures result1 != errTooMuchBatchSize
+//@   modifies ghost(misses, r), ghost(hits, r)
+
+//@ spec toI64(u int) int = ite(u >= 9223372036854775808, u - 18446744073709551616, u)
+//@ spec storedSize(b []byte) int = ite(len(b) == 0, 0, toI64(be64(b, 0)))
+//@ func Uint64(v []byte, err error) (uint64, error)
+//@   ensures err != nil ==> result1 == err && result0 == 0
+//@   ensures err == nil && len(v) == 0 ==> result1 == nil && result0 == 0
+//@   ensures err == nil && len(v) == 8 ==> result1 == nil && result0 == be64(v, 0)
+//@   ensures err == nil && len(v) != 0 && len(v) != 8 ==> result1 != nil
+//@ func Int64(v []byte, err error) (int64, error)
+//@   ensures err != nil ==> result1 == err && result0 == 0
+//@   ensures err == nil && (len(v) == 0 || len(v) == 8) ==> result1 == nil && result0 == storedSize(v)
+//@   ensures err == nil && len(v) != 0 && len(v) != 8 ==> result1 != nil
+//@ func PutInt64(v int64) []byte
+//@   ensures fresh(result) && len(result) == 8 && storedSize(result) == v
+
+// the write-preparation read of a collection meta: header present, element keys small enough for the codecs
+//@ func (db *RockDB) prepareHashKeyForWrite(ts int64, key []byte, field []byte) (collVerKeyInfo, error)
+//@   trusted reads the collection meta through the engine (prepareCollKeyForWrite)
+//@   ensures result1 == nil ==> result0.OldHeader != nil && (result0.OldHeader.Ver == 0 || result0.OldHeader.Ver == 1) && smallTK(result0.Table, result0.VerKey) && (len(result0.OldHeader.UserData) == 0 || len(result0.OldHeader.UserData) == 8) && storedSize(result0.OldHeader.UserData) >= 0 && storedSize(result0.OldHeader.UserData) < 4611686018427387904
+//@ func (im *IndexMgr) GetTableIndexes(table string) *TableIndexContainer
+//@   trusted secondary index registry lookup
+//@ func (tic *TableIndexContainer) GetHIndexNoLock(field string) *HsetIndex
+//@   trusted secondary index registry lookup
+//@ func (self *HsetIndex) UpdateRec(oldvalue []byte, value []byte, pk []byte, wb engine.WriteBatch) error
+//@   trusted secondary index maintenance: buffers index entries only
+//@   ensures ghost(wbputs, wb) >= old(ghost(wbputs, wb)) && ghost(wbdels, wb) >= old(ghost(wbdels, wb))
+//@   ensures result != errTooMuchBatchSize
+//@   modifies ghost(wbputs, wb), ghost(wbdels, wb)
+//@ func (self *HsetIndex) RemoveRec(value []byte, pk []byte, wb engine.WriteBatch)
+//@   trusted secondary index maintenance: buffers index entries only
+//@   ensures ghost(wbputs, wb) >= old(ghost(wbputs, wb)) && ghost(wbdels, wb) >= old(ghost(wbdels, wb))
+//@   modifies ghost(wbputs, wb), ghost(wbdels, wb)
+//@ noeffect (*github.com/youzan/ZanRedisDB/rockredis.TableIndexContainer).Lock (*github.com/youzan/ZanRedisDB/rockredis.TableIndexContainer).Unlock github.com/youzan/ZanRedisDB/slow.LogLargeCollection github.com/youzan/ZanRedisDB/slow.NewSlowLogInfo (github.com/prometheus/client_golang/prometheus.Observer).Observe (*github.com/prometheus/client_golang/prometheus.HistogramVec).With
+
+//@ func (r *RockDB) MaybeCommitBatch() error
+//@   requires r != nil && r.wb != nil
+//@   ensures result != errTooMuchBatchSize
+//@   ensures r.isBatching == 1 ==> result == nil && ghost(wbputs, r.wb) == old(ghost(wbputs, r.wb)) && ghost(wbdels, r.wb) == old(ghost(wbdels, r.wb)) && ghost(commits, r.rockEng) == old(ghost(commits, r.rockEng))
+//@   ensures r.isBatching != 1 ==> ghost(commits, r.rockEng) == old(ghost(commits, r.rockEng)) + 1 && ghost(cputs, r.rockEng) == old(ghost(wbputs, r.wb)) && ghost(cdels, r.rockEng) == old(ghost(wbdels, r.wb)) && ghost(wbputs, r.wb) == 0 && ghost(wbdels, r.wb) == 0
+//@   modifies ghost(commits, r.rockEng), ghost(cputs, r.rockEng), ghost(cdels, r.rockEng), ghost(wbputs, r.wb), ghost(wbdels, r.wb)
+
+// the stored size moves by exactly delta (never below 0); size 0 removes the size key, so a collection
+// exists iff it has at least one element. ghost(sizedelta, db) / ghost(newsize, db) record the last update
+//@ func (db *RockDB) hIncrSize(hkey []byte, oldh *headerMetaValue, delta int64, wb engine.WriteBatch) (int64, error)
+//@   requires db != nil && oldh != nil && (oldh.Ver == 0 || oldh.Ver == 1) && delta > -4611686018427387904 && delta < 4611686018427387904
+//@   requires len(oldh.UserData) == 0 || len(oldh.UserData) == 8 ==> storedSize(oldh.UserData) > -4611686018427387904 && storedSize(oldh.UserData) < 4611686018427387904
+//@   ensures result1 == nil <==> (len(old(oldh.UserData)) == 0 || len(old(oldh.UserData)) == 8)
+//@   ensures result1 != errTooMuchBatchSize
+//@   ensures result1 == nil ==> result0 == max(old(storedSize(oldh.UserData)) + delta, 0)
+//@   ensures result1 == nil && result0 == 0 ==> ghost(wbdels, wb) == old(ghost(wbdels, wb)) + 1 && ghost(wbputs, wb) == old(ghost(wbputs, wb))
+//@   ensures result1 == nil && result0 > 0 ==> ghost(wbputs, wb) == old(ghost(wbputs, wb)) + 1 && ghost(wbdels, wb) == old(ghost(wbdels, wb))
+//@   ensures result1 != nil ==> ghost(wbputs, wb) == old(ghost(wbputs, wb)) && ghost(wbdels, wb) == old(ghost(wbdels, wb))
+//@   ghostset ghost(sizedelta, db) := delta
+//@   ghostset ghost(newsize, db) := result0
+//@   modifies oldh.UserData, ghost(wbputs, wb), ghost(wbdels, wb), ghost(sizedelta, db), ghost(newsize, db)
+
+// HMSET: the hash size grows by exactly the number of fields the store did not have; every field is buffered
+// once; the only error that leaves the shared batch untouched is the argument-count limit
+//@ func (db *RockDB) HMset(ts int64, key []byte, args ...common.KVRecord) error
+//@   requires db != nil && db.wb != nil && db.indexMgr != nil
+//@   ensures result == nil && len(args) > 0 ==> ghost(sizedelta, db) == ghost(misses, db) - old(ghost(misses, db))
+//@   ensures result == nil && len(args) > 0 ==> ghost(newsize, db) >= ghost(sizedelta, db)
+//@   ensures result == errTooMuchBatchSize || len(args) == 0 ==> ghost(wbputs, db.wb) == old(ghost(wbputs, db.wb)) && ghost(wbdels, db.wb) == old(ghost(wbdels, db.wb)) && ghost(commits, db.rockEng) == old(ghost(commits, db.rockEng))
+//@   ensures len(args) > MAX_BATCH_NUM ==> result == errTooMuchBatchSize
+//@   modifies ghost(wbputs, _), ghost(wbdels, _), ghost(commits, _), ghost(cputs, _), ghost(cdels, _), ghost(misses, db), ghost(hits, db), ghost(sizedelta, db), ghost(newsize, db), ghost(tblcnt, db), alloftype(headerMetaValue)
+//@   loop 1
+//@   invariant 0 <= i && i <= len(args) && num == ghost(misses, db) - old(ghost(misses, db)) && num >= 0 && num <= i && err == nil && (value == nil || (fresh(value) && disjoint(value, keyInfo.OldHeader.UserData)))
+//@   invariant (len(keyInfo.OldHeader.UserData) == 0 || len(keyInfo.OldHeader.UserData) == 8) && storedSize(keyInfo.OldHeader.UserData) >= 0 && storedSize(keyInfo.OldHeader.UserData) < 4611686018427387904
